@@ -516,9 +516,17 @@ def recordListCell (r : RawEv) : Bool :=
 def drive (lines : List String) : IO UInt32 := do
   match initArgs lines with
   | "mpmc" :: _ =>
-    let body := lines.filter (fun l => !isInit l)
+    -- teardown runs (`init mpmc <pool> <threads> destroy`): the concurrent phase is validated
+    -- and monitored as usual (without the drained-at-the-end clause); the single-threaded
+    -- mpmc_fifo_destroy walk that follows is the harness's and the poison oracle's business
+    let destroyMode := (initArgs lines).getLast? == some "destroy"
+    let isDestroy (l : String) : Bool :=
+      match parseLine l with
+      | some r => r.kind == "note" && r.args == ["call", "destroy"]
+      | none => false
+    let body := (lines.filter (fun l => !isInit l)).takeWhile (fun l => !isDestroy l)
     let v := validateP sys (fun r => if r.kind != "note" && recordListCell r then some none else (ofRaw r).map some) body
-    let mon := queueMonitor { disc := .fifo, capacity := 0, drained := true, emptyOkInFlight := true } body
+    let mon := queueMonitor { disc := .fifo, capacity := 0, drained := !destroyMode, emptyOkInFlight := true } body
     report "Mpmc" v mon
   | _ => IO.println "VALIDATE DIVERGE missing init"; return 1
 
